@@ -21,6 +21,11 @@ percentile lag of the kernel x len_scale / rescale; theorems in Props/C03Pct for
 ending in `rescale = target`; search over all 17 classes x rescale {default, 0.3, 1.5, 2, 3} x {fresh, rescale changed in place}:
 percentile_scale against an independent bracketing oracle (variogram value AND smallest positive lag), integral_scale against an independent
 quadrature, integral_scale <-> len_scale round trip.  K3 keeps its keys only where the documented root search itself fails.
+(4) wave 6: dense shape grids (every multiple of 1/2 of every shape argument, interval ends, dimension-dependent minima) on lags of both signs against
+scipy-independent evaluations (search_dense_shapes) and, for Matern nu = p + 1/2 (p = 0..19), against GSV.Model.CovFn.maternHalfCor (corr_dense); signed lags
+through every function / variant (search_signed; theorems fromCor_even ...); list-valued len_scale / integral_scale at construction and through the setter
+(search_list_scales: *_vec, axis ratios, cor_axis = isotropic model of the axis, quadrature along every axis; listscale_case: GSV.Model.CovFn.setLenScaleList /
+setIntegralScaleList, theorems in Props/C03List).
 """
 import math
 import warnings
@@ -288,12 +293,13 @@ class Collector:
                                      "model_first": np.ravel(g)[:4].tolist()})
 
 
-def corr_case(col, rng, name, route, nice):
-    """one (class, parameters, route) case: all base functions + variants on a lag grid"""
+def corr_case(col, rng, name, route, nice, forced=None):
+    """one (class, parameters, route) case: all base functions + variants on a lag grid; forced = (optional arguments,
+    Lean kernel) instead of a random draw"""
     gs = _gs()
     dim = gen_dim(rng, name)
     common = gen_common(rng, nice)
-    opt, kern = gen_opt(rng, name, dim, elementary=True)
+    opt, kern = gen_opt(rng, name, dim, elementary=True) if forced is None else forced
     anis = [float(rng.choice([1.0, 0.5, 2.0, logu(rng, 0.1, 10)])) for _ in range(dim - 1)]
     angles = [float(rng.uniform(-np.pi, np.pi)) for _ in range(dim * (dim - 1) // 2)]
     radius = float(rng.choice([1.0, 57.29577951308232, 6371.0]))
@@ -315,6 +321,10 @@ def corr_case(col, rng, name, route, nice):
     case = {"cls": name, "route": route, "dim": dim, "kw": {**{k: v for k, v in common.items()}, **opt,
             "rescale": m.rescale, "anis": anis, "angles": angles}}
     sc = scales(m, route)
+    if kern["kernel"] == "MaternHalf":
+        # Matern.cor = exp(a) * kv(nu, x) with |a| up to ~ 3 nu (log-transformed prefactor): exp carries |a| eps, so the absolute
+        # slack 64 eps x scale grows with the order
+        sc = {k_: v_ * (1.0 + kern["n"]) for k_, v_ in sc.items()}
     base = {"op": "covfn_eval", "route": "cor" if route == "builtin" else route, **kern_fields(kern, dim), **par_bits(m)}
     col.count(f"class:{name}")
     col.count(f"route:{route}")
@@ -421,6 +431,90 @@ def intscale_case(col, rng, name):
     if name in ("Gaussian", "Exponential"):
         col.add({"op": "covfn_calc_is", "kernel": name, **par_bits(m)}, "intscale/calc_integral_scale", case,
                 [m.calc_integral_scale()], 0.0, rtol=1e-14)
+
+
+def corr_dense(col, rng):
+    """closed forms on the DENSE slices the model carries: Matern at every half-integer nu = p + 1/2 <= 19.5 (maternHalfCor,
+    coefficients in Nat), SuperSpherical at every integer nu <= 6 (beyond, the alternating binomial sum of the model cancels), through all functions and variants, builtin route and one
+    user route each"""
+    n = 0
+    for p in range(20):
+        forced = ({"nu": p + 0.5}, dict(kernel="MaternHalf", n=p))
+        corr_case(col, rng, "Matern", "builtin", False, forced=forced)
+        corr_case(col, rng, "Matern", ROUTES[p % 4], True, forced=forced)
+        col.count("dense:Matern half-integer nu")
+        n += 2
+    for k in range(0, 7):
+        forced = ({"nu": float(max(k, 1))}, dict(kernel="SuperSphericalNat", n=max(k, 1)))
+        corr_case(col, rng, "SuperSpherical", "builtin", False, forced=forced)
+        col.count("dense:SuperSpherical integer nu")
+        n += 1
+    return n
+
+
+LIST_KERNELS = ["Gaussian", "Exponential", "Matern", "Spherical", "Cubic", "TPLSimple", "Circular", "HyperSpherical"]
+
+
+def listscale_case(col, rng, name):
+    """list-valued len_scale / integral_scale (constructor and setter) against setLenScaleList / setIntegralScaleList:
+    len_scale, anis, len_scale_vec, integral_scale_vec and the per-axis scales the list prescribes (cut to the dimension,
+    padded with the last value, a single value keeps the stored ratios)"""
+    maxd = MAXDIM.get(name, 3)
+    if maxd < 2:
+        return
+    dim = int(rng.randint(2, maxd + 1))
+    common = gen_common(rng)
+    if name == "Matern":
+        opt, kern = gen_opt(rng, name, dim, elementary=True)
+        while kern["kernel"] not in ("Matern12", "Matern32", "Matern52"):
+            opt, kern = gen_opt(rng, name, dim, elementary=True)
+        kern = dict(kernel="Matern", a=opt["nu"])
+    else:
+        opt, kern = gen_opt(rng, name, dim, elementary=True)
+    what = str(rng.choice(["len_scale", "integral_scale"]))
+    how = str(rng.choice(["ctor", "setter"]))
+    nlist = int(rng.choice([1, 2, dim, dim, dim + 1]))
+    lst = [logu(rng, 0.2, 20.0) for _ in range(nlist)]
+    anis0 = [logu(rng, 0.2, 5.0) for _ in range(dim - 1)]
+    exact = name in ("Gaussian", "Exponential", "Matern")
+    with warnings.catch_warnings(), np.errstate(all="ignore"):
+        warnings.simplefilter("ignore")
+        try:
+            if how == "ctor":
+                kw = {k: v for k, v in common.items() if k != "len_scale"} if what == "len_scale" else dict(common)
+                m = make(name, dim, kw, opt, anis=anis0, **{what: lst})
+                start_len = 1.0 if what == "len_scale" else common["len_scale"]
+            else:
+                m = make(name, dim, common, opt, anis=anis0)
+                float(m.integral_scale)
+                setattr(m, what, lst)
+                start_len = common["len_scale"]
+            real = np.concatenate([[m.len_scale], m.anis, m.len_scale_vec, m.integral_scale_vec])
+        except ValueError as e:
+            col.disagreements.append({"what": f"listscale: real code raises {e}", "case": {"cls": name, "dim": dim, "list": lst, "what": what, "how": how}})
+            return
+    # the per-axis scales the list prescribes, written here independently of both sides
+    want_axes = (lst + [lst[-1]] * dim)[:dim] if nlist >= 2 else None
+    case = {"cls": name, "route": f"listscale:{how}:{what}", "dim": dim, "kw": {**common, **opt, "rescale": m.rescale, "anis": anis0}, "list": lst}
+    par = dict(var=proto.f2b(m.var), len_scale=proto.f2b(start_len), nugget=proto.f2b(m.nugget), rescale=proto.f2b(m.rescale))
+    op = {"op": "covfn_list_scale", **kern_fields(kern, dim), **par, "anis": proto.fbits(np.array(anis0)), "what": what, "list": proto.fbits(np.array(lst))}
+    vec = real[2 * dim:3 * dim] if what == "integral_scale" else real[dim:2 * dim]
+    expected = np.concatenate([real, vec if want_axes is None else np.array(want_axes)])
+    col.count(f"class:{name}")
+    col.count(f"route:listscale:{how}:{what}:{'single' if nlist == 1 else 'short' if nlist < dim else 'long' if nlist > dim else 'full'}")
+    n = expected.size
+    keep_exact = np.zeros(n, dtype=bool)
+    keep_exact[1:dim] = True                      # anis: ratios of the list (or the stored ones), no quadrature involved
+    if what == "len_scale":
+        keep_exact[:2 * dim] = True               # len_scale, anis, len_scale_vec
+        keep_exact[3 * dim:] = True
+    keep_all = np.ones(n, dtype=bool)
+    if want_axes is None:       # a single value prescribes the main scale only (the stored ratios stay): no per-axis list to compare
+        keep_exact[3 * dim:] = False
+        keep_all[3 * dim:] = False
+    col.add(op, "listscale/anis,exact part", case, expected, 0.0, rtol=1e-13, keep=keep_exact)
+    # quadrature-based classes: the integral of cor the class reports carries scipy.quad's error (see intscale_case)
+    col.add(op, "listscale/len_scale,anis,len_scale_vec,integral_scale_vec,axes", case, expected, 0.0, rtol=1e-12 if exact else 1e-4, keep=keep_all)
 
 
 # -------------------------------------------------- correspondence of tools/special.py (plans + affine forms, two driver rounds)
@@ -819,6 +913,11 @@ def correspondence(ctx):
         for name in elementary:
             for _ in range(2):
                 intscale_case(col, rng, name)
+    # dense elementary slices (every half-integer Matern order, integer SuperSpherical orders); list-valued scale arguments
+    corr_dense(col, rng)
+    for name in LIST_KERNELS:
+        for _ in range(ctx.scale(6, 30)):
+            listscale_case(col, rng, name)
     # Integral: closed form of calc_integral_scale
     for _ in range(ctx.scale(3, 20)):
         m = make("Integral", gen_dim(rng, "Integral"), gen_common(rng), gen_opt(rng, "Integral", 1, False)[0])
@@ -857,7 +956,10 @@ def correspondence(ctx):
                     "the model into const + sum coef*exp_int(s,x) (1e-12 + rounding admitted by the recurrence); read/change/read histories: "
                     "len_scale and integral_scale_vec after every in-place change (1e-12 closed-form classes, 1e-4 quad-based); percentile_scale(per) = "
                     "len_rescaled x closed-form percentile lag of the kernel (Exponential, Gaussian, Stable alpha >= 0.8, Rational, Linear, TPLSimple nu <= 2, "
-                    "Matern 1/2 and > 20) for rescale in {default, 0.3, 1.5, 2, 3}, fresh and after in-place histories ending in `rescale = target` (1e-8)",
+                    "Matern 1/2 and > 20) for rescale in {default, 0.3, 1.5, 2, 3}, fresh and after in-place histories ending in `rescale = target` (1e-8); "
+                    "dense slices on every run: Matern nu = p + 1/2 for p = 0..19 against maternHalfCor (coefficients in Nat, Horner), SuperSpherical nu = 1..6; "
+                    "list-valued len_scale / integral_scale (constructor and setter, lists of 1, 2, dim, dim + 1 entries, stored anis) against "
+                    "setLenScaleList / setIntegralScaleList: len_scale, anis, len_scale_vec, integral_scale_vec and the per-axis scales the list prescribes",
             "samples": col.samples, "disagreements": col.disagreements[:20], "distribution": col.dist}
 
 
@@ -2157,6 +2259,469 @@ def search_histories(ctx, rng, n_per_class, viol):
     return ev, dist
 
 
+# ------------------------------------------------------------------ dense shape-parameter grids, signed lags, list-valued scales
+# (wave 6)  The closed-form comparison above draws shape parameters at random; implementations of special functions carry
+# fast paths / tables / switches at integer and half-integer orders that a random draw never meets.  dense_shapes walks, for
+# every class and every optional shape argument (discovered from opt_arg_bounds, not listed), EVERY multiple of 1/2 inside
+# the bounds (thorough: of 1/4 and 1/10, and the ulp neighbours), the ends of the interval and the dimension-dependent minima,
+# and compares correlation on lags of both signs with an evaluation that shares no code with GSTools: scaled Bessel K in log
+# space (kve), regularised incomplete beta for the spherical family, power series / scaled J for JBessel, mpmath for the
+# exponential-integral classes.
+DENSE_H = np.array([0.0, 1e-5, 1e-3, 0.05, 0.3, 0.7, float(np.nextafter(1.0, 0)), 1.0, float(np.nextafter(1.0, 2)), 1.5, 3.0, 8.0, 20.0, 60.0])
+
+
+def sp_reference(name, m):
+    """documented normalised correlation as a numpy function of h = |r| / len_rescaled >= 0, written with scipy primitives
+    that the class itself does not use (or, for elementary classes, directly); None where only mpmath can serve"""
+    from scipy import special as sp
+    if name == "Gaussian":
+        return lambda h: np.exp(-h * h)
+    if name == "Exponential":
+        return lambda h: np.exp(-h)
+    if name == "Stable":
+        a = float(m.alpha)
+        return lambda h: np.exp(-np.exp(a * np.log(np.maximum(h, 1e-300)))) * (h > 0) + (h == 0)
+    if name == "Rational":
+        a = float(m.alpha)
+        return lambda h: np.exp(-a * np.log1p(h * h / a))
+    if name == "Matern":
+        nu = float(m.nu)
+        if nu > 20.0:
+            return lambda h: np.exp(-(h / 2.0) ** 2)
+
+        def f(h):
+            x = math.sqrt(nu) * np.maximum(h, 1e-300)
+            with np.errstate(all="ignore"):
+                lg = (1.0 - nu) * math.log(2.0) - sp.gammaln(nu) + nu * np.log(x) + np.log(sp.kve(nu, x)) - x
+            return np.where(h > 0, np.exp(lg), 1.0)
+        return f
+    if name == "Cubic":
+        return lambda h: np.where(h < 1, 1 - 7 * h ** 2 + 35 / 4 * h ** 3 - 7 / 2 * h ** 5 + 3 / 4 * h ** 7, 0.0)
+    if name == "Linear":
+        return lambda h: np.maximum(1 - h, 0.0)
+    if name == "Circular":
+        return lambda h: np.where(h < 1, 2 / np.pi * (np.arccos(np.minimum(h, 1)) - h * np.sqrt(np.maximum(1 - h * h, 0))), 0.0)
+    if name == "Spherical":
+        return lambda h: np.where(h < 1, 1 - 1.5 * h + 0.5 * h ** 3, 0.0)
+    if name in ("HyperSpherical", "SuperSpherical"):
+        # 1 - h F(1/2, -nu; 3/2; h^2) / F(1/2, -nu; 3/2; 1) = 1 - int_0^h (1 - t^2)^nu dt / int_0^1 = 1 - I_{h^2}(1/2, nu + 1)
+        nu = (m.dim - 1) / 2 if name == "HyperSpherical" else float(m.nu)
+        return lambda h: np.where(h < 1, 1.0 - sp.betainc(0.5, nu + 1.0, np.minimum(h, 1.0) ** 2), 0.0)
+    if name == "JBessel":
+        nu = float(m.nu)
+
+        def f(h):
+            out = np.ones_like(h)
+            for i, x in enumerate(h):
+                if x == 0:
+                    continue
+                q = (x / 2.0) ** 2
+                if q <= 4.0 * (nu + 1.0) or x <= 4.0:
+                    # Gamma(nu+1) (2/x)^nu J_nu(x) = sum_k (-q)^k / (k! (nu+1)_k): terms bounded by e^{q/(nu+1)} <= e^4
+                    t, s, k = 1.0, 1.0, 0
+                    while abs(t) > 1e-18 * abs(s) + 1e-300 and k < 500:
+                        k += 1
+                        t *= -q / (k * (nu + k))
+                        s += t
+                    out[i] = s
+                else:
+                    out[i] = math.exp(sp.gammaln(nu + 1.0) - nu * math.log(x / 2.0)) * sp.jv(nu, x)
+            return out
+        return f
+    if name == "TPLSimple":
+        nu = float(m.nu)
+        return lambda h: np.maximum(1 - h, 0.0) ** nu
+    return None
+
+
+def shape_grid(lo, hi, iv, full, extra=()):
+    """nominal values of a shape argument with bounds (lo, hi, type): every multiple of 1/2 (thorough: 1/4 up to 10, 1/10 up to 3),
+    the ends (closed: the end; open: 1e-3 / 1 ulp inside), the values `extra`; thorough: the ulp neighbours of the multiples of 1/2"""
+    hi_c = min(hi, 60.0)
+    vals = set()
+    for step, top in ((0.5, hi_c),) + (((0.25, 10.0), (0.1, 3.0)) if full else ((0.25, 3.0),)):
+        k0, k1 = int(math.floor(lo / step)), int(math.ceil(min(hi_c, top) / step))
+        vals.update(round(k * step, 10) for k in range(k0, k1 + 1))
+    vals.update([lo, hi_c, (lo + 1e-3) if lo == 0 else float(np.nextafter(lo, np.inf)), float(np.nextafter(hi_c, -np.inf))])
+    vals.update(extra)
+    ok = lambda v: (lo < v or (iv[0] == "c" and v == lo)) and (v < hi or (iv[1] == "c" and v == hi))
+    if full:
+        for v in list(vals):
+            if abs(2 * v - round(2 * v)) < 1e-12 and ok(v) and v != 0:      # (not the denormal neighbours of an open end at 0)
+                vals.update([float(np.nextafter(v, np.inf)), float(np.nextafter(v, -np.inf))])
+    return sorted(v for v in vals if ok(v))
+
+
+def search_dense_shapes(ctx, rng, viol, deep=False):
+    import mpmath as mp
+    gs = _gs()
+    ev = 0
+    full = deep or not ctx.quick
+    dist, worst = {}, {}
+    old = mp.mp.dps
+    mp.mp.dps = 30
+    per_key = {}
+
+    def check(name, m, case, ref_np, cfg):
+        """compare correlation / covariance / variogram of the object on lags of both signs with the independent evaluation"""
+        nonlocal ev
+        L = float(m.len_scale) / float(m.rescale)
+        hh = DENSE_H
+        r = hh * L
+        rr = np.concatenate([r, -r[1:]])
+        with warnings.catch_warnings(), np.errstate(all="ignore"):
+            warnings.simplefilter("ignore")
+            got = np.asarray(m.correlation(rr), dtype=float)
+            cov = np.asarray(m.covariance(rr), dtype=float)
+            vario = np.asarray(m.variogram(rr), dtype=float)
+            if ref_np is not None:
+                want = np.asarray(ref_np(np.abs(rr) / L), dtype=float)
+            else:
+                f = mp_reference(name, m)
+                w = np.array([float(f(mp.mpf(float(x)))) for x in r])
+                want = np.concatenate([w, w[1:]])
+        ev += rr.size
+        rtol, atol = CF_TOL.get(name, (1e-12, 8 * EPS))
+        rtol = max(rtol, 1e-11) if ref_np is not None and name in ("Matern", "JBessel", "HyperSpherical", "SuperSpherical") else rtol
+        err = np.abs(got - want)
+        tol = rtol * np.abs(want) + atol
+        err = np.where(np.isnan(err), np.inf, err)
+        worst[name] = max(worst.get(name, 0.0), float(np.max(err / (tol + 1e-320))))
+        bad = ~(err <= tol)
+        # the derived functions on the same lags (signed): covariance = var * documented, variogram = sill - covariance
+        sill = m.var + m.nugget
+        bad_cov = ~(np.abs(cov - m.var * want) <= (rtol * np.abs(want) + atol) * m.var + 4 * EPS * m.var)
+        bad_var = ~(np.abs(vario - (sill - m.var * want)) <= (rtol * np.abs(want) + atol) * m.var + 8 * EPS * sill)
+        if not (bad.any() or bad_cov.any() or bad_var.any()):
+            return True
+        i = int(np.argmax(np.where(bad, err - tol, -np.inf))) if bad.any() else int(np.argmax(bad_cov | bad_var))
+        key = f"closed-form:{name}"
+        if name == "JBessel" and want[i] > 0.5 and not got[i] > 0.0:
+            key = "closed-form:JBessel:underflow-small-h"
+        elif name == "Integral" and not np.isfinite(got[i]):
+            key = "small-lag-breakdown:Integral"
+        elif name in SPECIAL:
+            with np.errstate(all="ignore"):
+                snapped = float(mp_reference(name, m, snap=True)(mp.mpf(float(abs(rr[i])))))
+            if abs(got[i] - snapped) <= 1e-9 * abs(snapped) + 1e-13 and abs(want[i] - snapped) > 0:
+                key = f"closed-form:integer-order-snap:{name}"
+        if rr[i] < 0 and bad.any():
+            # the same lag with the other sign agrees: the sign handling, not the formula, is at fault
+            j = int(np.where(rr == -rr[i])[0][0])
+            if not bad[j]:
+                key = f"signed-lag:closed-form:{name}"
+        per_key[key] = per_key.get(key, 0) + 1
+        if per_key[key] <= 3:
+            fn = "correlation" if bad.any() else ("covariance" if bad_cov.any() else "variogram")
+            viol.append({"key": key, "what": f"{fn} differs from the documented formula ({'scipy-independent evaluation' if ref_np is not None else 'mpmath, 30 digits'}) on the dense "
+                                            f"grid of shape parameters (multiples of 1/2, interval ends, dimension-dependent minima)",
+                         "case": {**case, "lag": float(rr[i]), "h": float(rr[i] / L), "got": float(got[i]), "want": float(want[i]), "config": cfg}})
+        return False
+
+    try:
+        for ic, name in enumerate(ALL_CLASSES):
+            T = getattr(gs, name)
+            dims = list(range(1, MAXDIM.get(name, 3) + 1))
+            with quiet_ctx():
+                m0 = T(dim=dims[0])
+            shape_args = [a for a in m0.opt_arg if not hasattr(T, a + "_rescaled")]
+            dim_dep = False
+            if shape_args:
+                with quiet_ctx():
+                    bl = [tuple(T(dim=d).opt_arg_bounds[shape_args[0]])[:2] for d in dims]
+                dim_dep = len(set(bl)) > 1
+            use_dims = dims if (dim_dep or name == "HyperSpherical") else [dims[(ic + ctx.seed) % len(dims)]]
+            for idim, dim in enumerate(use_dims):
+                cfgs = [(1.0, None), (0.3, 2.0), (7.0, 0.4)]
+                ls, resc = cfgs[(ic + idim + ctx.seed) % 3]
+                kw = dict(var=1.7, len_scale=ls, nugget=0.2)
+                if resc is not None:
+                    kw["rescale"] = resc
+                with quiet_ctx():
+                    m = T(dim=dim, **kw)
+                home = {a: float(getattr(m, a)) for a in shape_args}
+                if not shape_args:
+                    dist[f"{name}:no shape argument"] = dist.get(f"{name}:no shape argument", 0) + 1
+                    check(name, m, {"cls": name, "dim": dim, "kw": kw}, sp_reference(name, m), "fresh")
+                    continue
+                minima = []
+                if dim_dep:
+                    minima = [float(b[0]) for b in bl]
+                grids = {}
+                for a in shape_args:
+                    b = tuple(m.opt_arg_bounds[a])
+                    iv = b[2] if len(b) == 3 else "cc"
+                    grids[a] = shape_grid(float(b[0]), float(b[1]), iv, full, extra=[x for x in minima if x >= float(b[0])])
+                if len(shape_args) == 1:
+                    sets = [{shape_args[0]: v} for v in grids[shape_args[0]]]
+                else:
+                    # one argument on its grid (the others at their defaults), and the pairs of the multiples of 1/4 (thorough: all pairs of the coarse grids)
+                    sets = []
+                    for a in shape_args:
+                        sets += [{a: v} for v in grids[a]]
+                    g2 = {a: [v for v in grids[a] if abs(4 * v - round(4 * v)) < 1e-12] for a in shape_args}
+                    keys_ = list(g2)
+                    import itertools as it
+                    sets += [dict(zip(keys_, combo)) for combo in it.product(*[g2[a] for a in keys_])]
+                if name in SPECIAL and not full:
+                    # mpmath reference: the multiples of 1/2 always, a rotating third of the rest
+                    sets = [s for j, s in enumerate(sets) if all(abs(2 * v - round(2 * v)) < 1e-12 for v in s.values()) or (j + ctx.seed) % 3 == 0]
+                for s in sets:
+                    ok_set = True
+                    with quiet_ctx():
+                        try:
+                            for a, v in s.items():
+                                setattr(m, a, v)
+                        except ValueError as e:
+                            ok_set = False
+                            viol.append({"key": f"edge-parameter-rejected:{name}", "what": f"shape value inside the bounds is rejected: {e}", "case": {"cls": name, "dim": dim, "kw": {**kw, **s}}})
+                            for a in s:
+                                setattr(m, a, home[a])
+                    if not ok_set:
+                        continue
+                    dist[name] = dist.get(name, 0) + 1
+                    case = {"cls": name, "dim": dim, "kw": {**kw, **s}}
+                    ref_np = sp_reference(name, m)
+                    try:
+                        passed = check(name, m, case, ref_np, "shape set in place")
+                    except Exception as e:      # the public API raises on a parameter set inside the bounds
+                        per_key[f"closed-form:exception:{name}"] = per_key.get(f"closed-form:exception:{name}", 0) + 1
+                        if per_key[f"closed-form:exception:{name}"] <= 2:
+                            viol.append({"key": f"closed-form:exception:{name}", "what": f"evaluating correlation / covariance / variogram raises {type(e).__name__}: {str(e)[:100]}", "case": case})
+                        passed = True
+                    if not passed:
+                        # a failure is re-evaluated on a freshly constructed model: same failure => property of the parameter set
+                        with quiet_ctx():
+                            fresh = T(dim=dim, **{**kw, **s})
+                        n_before = len(viol)
+                        same_fail = not check(name, fresh, case, sp_reference(name, fresh), "fresh")
+                        if not same_fail and len(viol) > 0:
+                            for v_ in viol[-3:]:
+                                if v_["case"].get("kw") == case["kw"] and v_["case"].get("config") == "shape set in place" and not v_["key"].startswith("after-history:"):
+                                    v_["key"] = "after-history:" + v_["key"]
+                    for a in s:
+                        with quiet_ctx():
+                            setattr(m, a, home[a])
+    finally:
+        mp.mp.dps = old
+    return ev, dist, worst
+
+
+class quiet_ctx:
+    def __enter__(self):
+        self.w = warnings.catch_warnings()
+        self.w.__enter__()
+        warnings.simplefilter("ignore")
+        self.e = np.errstate(all="ignore")
+        self.e.__enter__()
+
+    def __exit__(self, *a):
+        self.e.__exit__(*a)
+        self.w.__exit__(*a)
+
+
+SIGNED_FNS = ["correlation", "covariance", "variogram", "cov_nugget", "vario_nugget"]
+
+
+def search_signed(ctx, rng, n_per_class, viol):
+    """lags of either sign through every function of the family: f(-r) = f(r) exactly (the sign is removed before anything
+    is computed) for the isotropic functions, their nugget / axis / spatial variants, on 1-D arrays, mixed-sign 2-D arrays
+    and negative scalars; the value at a negative lag equals the identities' right-hand sides formed from |r|."""
+    ev = 0
+    per_key = {}
+
+    def add(key, what, case):
+        per_key[key] = per_key.get(key, 0) + 1
+        if per_key[key] <= 2:
+            viol.append({"key": key, "what": what, "case": case})
+
+    def same(a, b, tol=1e-14):
+        a, b = np.asarray(a, dtype=float), np.asarray(b, dtype=float)
+        return (a == b) | (np.isnan(a) & np.isnan(b)) | (np.abs(a - b) <= tol * (1 + np.abs(a)))
+
+    for name in ALL_CLASSES:
+        for _ in range(n_per_class):
+            dim = gen_dim(rng, name)
+            common = gen_common(rng)
+            opt, _k = gen_opt(rng, name, dim, elementary=False)
+            anis = [logu(rng, 0.1, 10) for _ in range(dim - 1)]
+            angles = [float(rng.uniform(-np.pi, np.pi)) for _ in range(dim * (dim - 1) // 2)]
+            m = make(name, dim, common, opt, anis=anis, angles=angles)
+            L = m.len_rescaled
+            h = np.concatenate([10.0 ** np.linspace(-7, 1.5, 18), rng.uniform(0, 3, 10), [float(np.nextafter(1.0, 0)), 1.0, float(np.nextafter(1.0, 2))]]) * L
+            case = {"cls": name, "dim": dim, "kw": {**common, **opt, "anis": anis, "angles": angles}}
+            with quiet_ctx():
+                for fn in SIGNED_FNS:
+                    f = getattr(m, fn)
+                    a, b = np.asarray(f(h), dtype=float), np.asarray(f(-h), dtype=float)
+                    ev += 1
+                    bad = ~same(a, b)
+                    if bad.any():
+                        i = int(np.argmax(bad))
+                        add(f"signed-lag:not-even:{fn}:{name}", f"{fn}({-float(h[i])!r}) = {float(b[i])!r} but {fn}({float(h[i])!r}) = {float(a[i])!r}", {**case, "lag": -float(h[i])})
+                        continue
+                    mixed = np.where(np.arange(h.size) % 2 == 0, h, -h)[: 2 * (h.size // 2)]
+                    c2 = np.asarray(f(mixed.reshape(2, -1)), dtype=float)
+                    sc = np.asarray(f(-float(h[20])), dtype=float)
+                    ev += 2
+                    if c2.shape != (2, h.size // 2) or not same(c2.ravel(), a[: mixed.size]).all() or not same(sc.ravel()[:1], a[20:21]).all():
+                        add(f"signed-lag:not-even:{fn}:{name}", f"{fn} of a mixed-sign 2-D array / negative scalar differs from {fn} of the absolute lags", case)
+                for ax in range(dim):
+                    for fn in ("cor_axis", "cov_axis", "vario_axis"):
+                        a, b = np.asarray(getattr(m, fn)(h, ax), dtype=float), np.asarray(getattr(m, fn)(-h, ax), dtype=float)
+                        ev += 1
+                        bad = ~same(a, b)
+                        if bad.any():
+                            i = int(np.argmax(bad))
+                            add(f"signed-lag:not-even:{fn}:{name}", f"{fn}({-float(h[i])!r}, axis={ax}) = {float(b[i])!r}, at the positive lag {float(a[i])!r}", {**case, "axis": ax, "lag": -float(h[i])})
+                pos = rng.uniform(-2, 2, size=(dim, 24)) * L
+                for fn in ("cor_spatial", "cov_spatial", "vario_spatial"):
+                    a, b = np.asarray(getattr(m, fn)(pos), dtype=float), np.asarray(getattr(m, fn)(-pos), dtype=float)
+                    ev += 1
+                    if not same(a, b, 1e-12).all():
+                        add(f"signed-lag:not-even:{fn}:{name}", f"{fn}(-pos) differs from {fn}(pos)", case)
+                # identities at negative lags with right-hand sides formed from |r|
+                sill = m.var + m.nugget
+                cor_abs = np.asarray(m.correlation(np.abs(h)), dtype=float)
+                fin = np.isfinite(cor_abs)
+                got_c, got_v = np.asarray(m.covariance(-h), dtype=float), np.asarray(m.variogram(-h), dtype=float)
+                ev += 2
+                if differs(got_c[fin], m.var * cor_abs[fin], m.var).any() or differs(got_v[fin], sill - m.var * cor_abs[fin], sill).any():
+                    add(f"signed-lag:identity:{name}", "covariance(-r) != var * correlation(|r|) or variogram(-r) != var + nugget - var * correlation(|r|)", case)
+    return ev
+
+
+def search_list_scales(ctx, rng, reps, viol):
+    """list-valued scale arguments ('float or list'): integral_scale / len_scale given per axis, at construction and through
+    the setter, dim 2-3 (and space-time), with / without anis=, short lists (padded with the last value): the per-axis integral
+    scales (independent quadrature of cor_axis along each axis) equal the prescribed list, integral_scale_vec / len_scale_vec
+    report it, and each axis behaves as the isotropic model with that axis' length."""
+    from scipy.integrate import quad
+    gs = _gs()
+    ev = 0
+    dist = {}
+    per_key = {}
+
+    def add(key, what, case):
+        per_key[key] = per_key.get(key, 0) + 1
+        if per_key[key] <= 2:
+            viol.append({"key": key, "what": what, "case": case})
+
+    def axis_integral(m, name, ax, guess):
+        """int_0^inf cor_axis(r, ax) dr by quadrature of the public function"""
+        f = lambda t: float(np.asarray(m.cor_axis(np.array([t * guess]), ax), dtype=float)[0]) * guess
+        if name in COMPACT:
+            up = (m.len_scale / m.rescale) * (1.0 if ax == 0 else float(m.anis[ax - 1])) / guess
+            return quad(f, 0, up, limit=200, epsabs=1e-12, epsrel=1e-10)[0]
+        pts = [0.0, 0.25, 1.0, 4.0, 16.0, 64.0]
+        tot = sum(quad(f, a, b, limit=200, epsabs=1e-13, epsrel=1e-10)[0] for a, b in zip(pts[:-1], pts[1:]))
+        return tot + quad(f, pts[-1], np.inf, limit=200, epsabs=1e-13, epsrel=1e-10)[0]
+
+    closed = ("Gaussian", "Exponential", "Stable", "Rational", "Matern", "Integral")
+    for ic, name in enumerate(ALL_CLASSES):
+        maxd = MAXDIM.get(name, 3)
+        if maxd < 2:
+            continue
+        for rep in range(reps):
+            for mode in ("ctor:integral_scale=list", "setter:integral_scale=list", "ctor:len_scale=list", "setter:len_scale=list",
+                         "ctor:integral_scale=short-list", "ctor:integral_scale=scalar+anis", "ctor:integral_scale=list+anis", "ctor:len_scale=list+temporal"):
+                if ctx.quick and name in TPL3 and mode not in ("ctor:integral_scale=list", "setter:integral_scale=list", "ctor:len_scale=list"):
+                    continue        # quick tier: these classes integrate by quadrature on every read of integral_scale (~50 ms)
+                dim = int(rng.randint(2, maxd + 1))
+                if "short" in mode:
+                    if maxd < 3:
+                        continue
+                    dim = 3
+                if "temporal" in mode:
+                    dim = min(maxd, 3)
+                common = gen_common(rng)
+                common.pop("len_scale")
+                opt, _k = gen_opt(rng, name, dim, elementary=False)
+                if name in TPL3:
+                    opt["len_low"] = 0.0       # integral_scale= is refused (loudly) with a lower cut-off
+                if name == "Rational" and opt["alpha"] <= 1.0:
+                    opt["alpha"] = 1.5          # the integral of the correlation diverges at alpha = 1/2
+                if name == "Matern" and opt["nu"] > 20:
+                    opt["nu"] = 20.0            # D12: the Gaussian limit has its own integral scale
+                if name == "Stable" and opt["alpha"] < 0.5:
+                    opt["alpha"] = 0.5
+                if name == "Integral":
+                    opt["nu"] = float(min(max(opt["nu"], 0.5), 30.0))
+                if name == "JBessel":
+                    opt["nu"] = float(min(opt["nu"], 30.0))
+                scales_ = [logu(rng, 0.2, 20.0) for _ in range(dim)]
+                given = scales_[:2] if "short" in mode else scales_
+                expect = scales_[:2] + [scales_[1]] * (dim - 2) if "short" in mode else list(scales_)
+                anis_kw = [logu(rng, 0.2, 5) for _ in range(dim - 1)]
+                kind = "integral" if "integral_scale" in mode else "len"
+                case = {"cls": name, "dim": dim, "mode": mode, "kw": {**common, **opt}, "given": given}
+                extra = {}
+                if mode.endswith("scalar+anis"):
+                    given = scales_[0]
+                    expect = [scales_[0]] + [scales_[0] * a for a in anis_kw]
+                    extra["anis"] = anis_kw
+                    case["given"], case["anis"] = given, anis_kw
+                if mode.endswith("list+anis"):
+                    extra["anis"] = anis_kw      # documented for len_scale: a list of scales recalculates anis
+                    case["anis"] = anis_kw
+                if "temporal" in mode:
+                    extra["temporal"] = True
+                dist[mode] = dist.get(mode, 0) + 1
+                with quiet_ctx():
+                    try:
+                        if mode.startswith("ctor"):
+                            m = make(name, dim, common, opt, **{("integral_scale" if kind == "integral" else "len_scale"): given}, **extra)
+                        else:
+                            m = make(name, dim, {**common, "len_scale": logu(rng, 0.2, 20.0)}, opt, **extra)
+                            float(m.integral_scale)      # a read before the change
+                            setattr(m, "integral_scale" if kind == "integral" else "len_scale", given)
+                    except ValueError as e:
+                        if name == "JBessel" and kind == "integral":
+                            dist["refused:JBessel (D11)"] = dist.get("refused:JBessel (D11)", 0) + 1
+                            continue
+                        add(f"list-scale:refused:{name}", f"{mode} with {given} raises: {e}", case)
+                        continue
+                    ev += 1
+                    lsv, isv = np.asarray(m.len_scale_vec, dtype=float), np.asarray(m.integral_scale_vec, dtype=float)
+                    vec, label = (isv, "integral_scale_vec") if kind == "integral" else (lsv, "len_scale_vec")
+                    rtol_rep = 1e-9 if (kind == "len" or name in closed) else 2e-3        # the setter itself accepts 1e-3 for quadrature-based classes
+                    if vec.shape != (dim,) or not np.all(np.abs(vec - np.array(expect)) <= rtol_rep * np.array(expect)):
+                        add(f"list-scale:{label}:{name}", f"{mode}: prescribed {expect} per axis, {label} reports {vec.tolist()}", {**case, "reported": vec.tolist()})
+                        continue
+                    # ratios between the axes are exact up to rounding whatever the class' integral scale is
+                    if not np.all(np.abs(lsv / lsv[0] - np.array(expect) / expect[0]) <= 1e-12 * np.array(expect) / expect[0]) or \
+                            not np.all(np.abs(isv / isv[0] - np.array(expect) / expect[0]) <= 1e-9 * np.array(expect) / expect[0]):
+                        add(f"list-scale:axis-ratios:{name}", f"{mode}: axis ratios of len_scale_vec / integral_scale_vec differ from those of the prescribed list {expect}",
+                            {**case, "len_scale_vec": lsv.tolist(), "integral_scale_vec": isv.tolist()})
+                        continue
+                    # each axis = the isotropic model with that axis' length
+                    r = np.array([0.0, 0.1, 0.5, 1.0, 2.5]) * float(lsv[0]) / m.rescale
+                    for ax in range(dim):
+                        mi = make(name, dim, {**common, "len_scale": float(lsv[ax]), "rescale": m.rescale}, opt)
+                        a, b = np.asarray(m.cor_axis(r * lsv[ax] / lsv[0], ax), dtype=float), np.asarray(mi.correlation(r * lsv[ax] / lsv[0]), dtype=float)
+                        ev += 1
+                        if differs(a, b, 1e3, rtol=1e-9).any():
+                            add(f"list-scale:axis-function:{name}", f"{mode}: cor_axis(r, {ax}) differs from the correlation of the isotropic model with len_scale = len_scale_vec[{ax}]",
+                                {**case, "axis": ax})
+                    # independent quadrature along every axis
+                    if name == "JBessel":
+                        continue        # conditionally convergent oscillating integral (D11): the axis-function comparison above stands in
+                    if ctx.quick and name in TPL3 and rep > 0:
+                        continue
+                    if ctx.quick and not mode.endswith("integral_scale=list") and (ic + len(mode) + ctx.seed) % 3 != 0:
+                        continue        # quick tier: the quadrature always for the two plain list routes, for a rotating third of the other modes
+                    for ax in range(dim):
+                        target = float(expect[ax]) if kind == "integral" else float(isv[ax])
+                        val = axis_integral(m, name, ax, target)
+                        ev += 1
+                        rtol = 1e-6 if name in closed + ("Linear", "Spherical", "Cubic", "Circular", "TPLSimple") else 2e-3 if kind == "integral" else 1e-4
+                        if not abs(val - target) <= rtol * target:
+                            add(f"list-scale:axis-integral:{name}", f"{mode}: the integral of cor_axis along axis {ax} is {val!r}, "
+                                + (f"prescribed integral scale {target!r}" if kind == "integral" else f"integral_scale_vec[{ax}] = {target!r}"), {**case, "axis": ax, "integral": val, "want": target})
+                            break
+    return ev, dist
+
+
 def dedup(viol, per_key=2):
     seen, out = {}, []
     for v in viol:
@@ -2279,6 +2844,10 @@ def search(ctx, deep=False):
     e4, dist_h = search_histories(ctx, np.random.RandomState(ctx.seed + 3203), ctx.scale(2, 18) * mult, viol)
     ev += e4
     ev += search_special_helpers(ctx, np.random.RandomState(ctx.seed + 3303), viol)
+    e6, dist_d, worst_d = search_dense_shapes(ctx, np.random.RandomState(ctx.seed + 3503), viol, deep)
+    e7 = search_signed(ctx, np.random.RandomState(ctx.seed + 3603), ctx.scale(6, 30) * mult, viol)
+    e8, dist_l = search_list_scales(ctx, np.random.RandomState(ctx.seed + 3703), ctx.scale(1, 4) * mult, viol)
+    ev += e6 + e7 + e8
     out, seen = dedup(viol)
     return {"evaluations": ev, "violations": out,
             "summary": "identities, nugget/axis/yadrenko/spatial variants and user routes on the real API for all 17 classes over their "
@@ -2292,7 +2861,13 @@ def search(ctx, deep=False):
                        + "; exponential-integral orders on / next to integers and branch boundaries of tools.special (class:order class -> "
                          "models): " + str(dist_so) + ", worst error there (units of tolerance, known snap / breakdown cases included): "
                        + str({k: (round(v, 3) if np.isfinite(v) else "inf") for k, v in worst_so.items()})
-                       + "; read/change/read histories vs freshly built models and independent quadrature (op counts): " + str(dist_h)}
+                       + "; read/change/read histories vs freshly built models and independent quadrature (op counts): " + str(dist_h)
+                       + f"; dense shape grids (every multiple of 1/2 of every shape argument inside its bounds, interval ends, dimension-dependent minima; lags of both signs;"
+                         f" scipy-independent evaluations: kve in log space, incomplete beta, power series / scaled J, mpmath for the exponential-integral classes): {e6} values, parameter sets"
+                         f" per class {dist_d}, worst error (units of tolerance) " + str({k: (round(v, 3) if np.isfinite(v) else "inf") for k, v in worst_d.items()})
+                       + f"; {e7} signed-lag checks (f(-r) = f(r) for all isotropic / nugget / axis / spatial functions on arrays, 2-D arrays, scalars; identities at negative lags)"
+                       + f"; {e8} list-valued scale checks (integral_scale / len_scale as list at construction and through the setter, short lists, with anis=, space-time:"
+                         f" *_vec = list, axis ratios, cor_axis = isotropic model of that axis, quadrature of cor_axis along every axis): {dist_l}"}
 
 
 def replay(ctx, payload):
@@ -2327,7 +2902,40 @@ def replay(ctx, payload):
         if "cls" not in c or c["cls"] not in ALL_CLASSES:
             continue
         kw = {k: val for k, val in c.get("kw", {}).items() if val is not None}
+        if key.startswith("list-scale:") and "mode" in c:
+            # a list-valued scale argument: rebuild through the recorded route and show what the object reports per axis
+            mode, given = c["mode"], c["given"]
+            what = "integral_scale" if "integral_scale" in mode else "len_scale"
+            extra = {"anis": c["anis"]} if "anis" in c else {}
+            if "temporal" in mode:
+                extra["temporal"] = True
+            with warnings.catch_warnings(), np.errstate(all="ignore"):
+                warnings.simplefilter("ignore")
+                if mode.startswith("ctor"):
+                    m = make(c["cls"], c["dim"], {}, kw, **{what: given}, **extra)
+                else:
+                    m = make(c["cls"], c["dim"], {}, {**kw, "len_scale": 1.0}, **extra)
+                    setattr(m, what, given)
+                vec = np.asarray(m.integral_scale_vec if what == "integral_scale" else m.len_scale_vec, dtype=float)
+            want = np.atleast_1d(np.asarray(given, dtype=float))
+            want = np.concatenate([want, [want[-1]] * c["dim"]])[:c["dim"]]
+            if mode.endswith("scalar+anis"):
+                want = want[0] * np.concatenate([[1.0], c["anis"]])
+            print(f"replay {key}: {mode} with {given}: {what}_vec = {vec.tolist()}, prescribed per axis {want.tolist()}")
+            bad += bool(np.any(np.abs(vec - want) > 2e-3 * want))
+            continue
         m = make(c["cls"], c.get("dim", 1), {}, kw)
+        if key.startswith("signed-lag:") and "lag" in c:
+            r = np.array([c["lag"]])
+            fn = key.split(":")[2] if key.startswith("signed-lag:not-even:") else "correlation"
+            f = getattr(m, fn)
+            args = (c["axis"],) if "axis" in c and fn.endswith("_axis") else ()
+            with warnings.catch_warnings(), np.errstate(all="ignore"):
+                warnings.simplefilter("ignore")
+                a, b = float(np.ravel(f(r, *args))[0]), float(np.ravel(f(-r, *args))[0])
+            print(f"replay {key}: {fn}({c['lag']!r}) = {a!r}, {fn}({-c['lag']!r}) = {b!r}")
+            bad += not (a == b or (np.isnan(a) and np.isnan(b)) or abs(a - b) <= 1e-14 * (1 + abs(b)))
+            continue
         if key.startswith("integral-scale:"):
             import mpmath as mp
             rep = float(m.integral_scale)
